@@ -54,9 +54,13 @@ COQFLAGS = ['-noglob', '-Q', THEORIES, 'Glam', '-Q', GEN, 'Gen']
 def _sha(path):
     return hashlib.sha256(open(path, 'rb').read()).hexdigest()
 
-def coqc(path, extra=(), timeout=3000):
+def _limits():
+    import resource
+    resource.setrlimit(resource.RLIMIT_AS, (6 << 30, 6 << 30))   # a runaway tactic must not take the machine down
+
+def coqc(path, extra=(), timeout=1200, limit=True):
     try:
-        r = subprocess.run(['coqc'] + COQFLAGS + list(extra) + [path], capture_output=True, text=True, timeout=timeout, cwd=os.path.dirname(path))
+        r = subprocess.run(['coqc'] + COQFLAGS + list(extra) + [path], capture_output=True, text=True, timeout=timeout, cwd=os.path.dirname(path), preexec_fn=_limits if limit else None)
         return r.returncode, r.stdout, r.stderr
     except subprocess.TimeoutExpired as e:
         return 124, '', 'coqc timeout after %ds' % timeout
@@ -143,7 +147,7 @@ class SymErr(Exception): pass
 
 def hidden_lane_type(n, fields):
     """16-byte three-lane types whose fourth lane is not part of the value (sse2 / coresimd layouts)."""
-    return n in ('Vec3A', 'BVec3A') and len(fields) == 1 and fields[0][1] in ('m128', {'simd': 'f32x4'}, {'simd': 'mask32x4'})
+    return n in ('Vec3A', 'BVec3A') and len(fields) == 1 and fields[0][1] in ('m128', {'simd': 'mask32x4'})
 
 def sym(structs, t, prefix, vars_):
     if isinstance(t, str):
@@ -163,7 +167,8 @@ def sym(structs, t, prefix, vars_):
         raise SymErr('sym of ' + n)
     if 't' in t: return ('T', [sym(structs, x, '%s_%d' % (prefix, i), vars_) for i, x in enumerate(t['t'])])
     if 'a' in t and t['len'] is not None: return ('T', [sym(structs, t['a'], '%s_%d' % (prefix, i), vars_) for i in range(t['len'])])
-    if 'simd' in t and t['simd'] in ('f32x4',): return ('T', [sym(structs, 'f32', '%s_%d' % (prefix, i), vars_) for i in range(4)])
+    if 'simd' in t and t['simd'] == 'mask32x4': return ('T', [sym(structs, 'bool', '%s_%d' % (prefix, i), vars_) for i in range(4)])
+    if 'simd' in t and t['simd'] == 'u32x4': return ('T', [sym(structs, 'u32', '%s_%d' % (prefix, i), vars_) for i in range(4)])
     raise SymErr('sym of ' + json.dumps(t))
 
 def leaf_coq(l, erase_hidden=False):
@@ -192,20 +197,43 @@ def tree_fill(tr, leaves_iter):
         x = next(leaves_iter); k = tr[1]
         return ('VF32 %s' % x) if k == 'f32' else ('VF64 %s' % x) if k == 'f64' else ('VB %s' % x) if k == 'bool' else 'VI %s %s' % (ikc(k), x)
     return 'VT [%s]' % '; '.join(tree_fill(c, leaves_iter) for c in tr[1])
-def coq_ty(k):
-    return {'f32': 'F32 O', 'f64': 'F64 O', 'bool': 'bool'}.get(k, 'Z')
-def binders(vars_):
-    return ' '.join('(%s : %s)' % (n, coq_ty(k)) for n, k in vars_)
+def ty_shape(structs, t):
+    """shape term (Spec.shp) of a Rust type: SH at hidden lanes"""
+    if isinstance(t, str): return 'ST [SL; SL; SL; SL]' if t == 'm128' else 'SL'
+    if 'n' in t:
+        n = t['n']
+        if n in structs:
+            fs = structs[n]
+            if hidden_lane_type(n, fs): return 'ST [ST [SL; SL; SL; SH]]'
+            return 'ST [%s]' % '; '.join(ty_shape(structs, ft) for _, ft in fs)
+        return 'SL'
+    if 't' in t: return 'ST [%s]' % '; '.join(ty_shape(structs, x) for x in t['t'])
+    if 'a' in t and t['len'] is not None: return 'ST [%s]' % '; '.join([ty_shape(structs, t['a'])] * t['len'])
+    if 'o' in t: return 'SO (%s)' % ty_shape(structs, t['o'])
+    if 'r' in t: return 'SO (%s)' % ty_shape(structs, t['r'])
+    return 'SL'
+def shape_has_hidden(sh): return 'SH' in sh
+
+def coq_ty(k, ops='O'):
+    return {'f32': 'F32 %s' % ops, 'f64': 'F64 %s' % ops, 'bool': 'bool'}.get(k, 'Z')
+def binders(vars_, ops='O'):
+    return ' '.join('(%s : %s)' % (n, coq_ty(k, ops)) for n, k in vars_)
 
 # ------------------------------------------------------------------ lemma files
+DEFERRED = []
+LEMMA_TIMEOUT = [20]   # seconds per lemma (quick tier); a lemma that exceeds it is reported as deferred, not as failed
+
 class Lemma:
     """forall (O:Ops) vars, lhs = rhs   (lhs/rhs Coq text over O and the variables)"""
     def __init__(self, name, vars_, lhs, rhs, tactic='solve_struct', meta=None):
-        self.name = name; self.vars = vars_; self.lhs = lhs; self.rhs = rhs; self.tactic = tactic; self.meta = meta or {}
+        self.name = name; self.vars = vars_; self.lhs = lhs; self.rhs = rhs; self.tactic = tactic; self.meta = meta or {}; self.ops = 'O'; self.ty = 'res (valO O)'
     def statement(self):
-        return 'forall (O:Ops) %s, %s = %s' % (binders(self.vars), self.lhs, self.rhs)
+        if getattr(self, 'intstd', False): return 'forall (O:Ops) (chk:bool), IntStd O chk -> forall %s, %s = %s' % (binders(self.vars, self.ops), self.lhs, self.rhs)
+        return 'forall (O:Ops) %s, %s = %s' % (binders(self.vars, self.ops), self.lhs, self.rhs)
     def text(self):
-        return 'Lemma %s : %s.\nProof. intros O; destruct O; intros. %s. Qed.' % (self.name, self.statement(), self.tactic)
+        if getattr(self, 'intstd', False):
+            return 'Lemma %s : %s.\nProof. intros O; destruct O; intros chk HZ; intros; intstd_eqs HZ. Timeout %d solve_z f32_pred f32_cmp f64_pred f64_cmp chk ltac:(unlock_ints). all: reflexivity. Qed.' % (self.name, self.statement(), LEMMA_TIMEOUT[0])
+        return 'Lemma %s : %s.\nProof. intros O; destruct O; intros. Timeout %d %s. all: reflexivity. Qed.' % (self.name, self.statement(), LEMMA_TIMEOUT[0], self.tactic)
 
 HDR = 'From Glam Require Import Base Spec.\nFrom Gen Require Import Table.\nFrom Coq Require Import ZArith List String Bool.\nImport ListNotations.\nOpen Scope Z_scope.\n'
 
@@ -215,67 +243,92 @@ def write_if_changed(path, s):
     except OSError: pass
     open(path, 'w').write(s)
 
+def _coqtop(path, timeout):
+    """feed a file to coqtop; a watchdog kills the process when one lemma (between two BEGIN markers) runs longer than the
+    per-lemma limit (vm_compute is not interruptible by Coq's own Timeout)"""
+    outp = path[:-2] + '.out'
+    with open(outp, 'w') as fo, open(path) as fi:
+        p = subprocess.Popen(['coqtop', '-q'] + COQFLAGS[1:], stdin=fi, stdout=fo, stderr=subprocess.STDOUT, cwd=os.path.dirname(path), preexec_fn=_limits, start_new_session=True)
+        t0 = time.time(); last_marker = None; last_t = time.time(); killed = False
+        while p.poll() is None:
+            time.sleep(0.5)
+            try:
+                with open(outp, 'rb') as f:
+                    f.seek(max(0, os.path.getsize(outp) - 20000)); tail = f.read().decode(errors='replace')
+            except OSError: tail = ''
+            ms = re.findall(r'BEGIN (\d+)', tail); m = ms[-1] if ms else None
+            if m != last_marker: last_marker = m; last_t = time.time()
+            if time.time() - last_t > LEMMA_TIMEOUT[0] + 5 or time.time() - t0 > timeout:
+                try: os.killpg(p.pid, 9)
+                except OSError: pass
+                p.wait(); killed = True; break
+    out = open(outp, errors='replace').read()
+    return out + ('\nFILE-TIMEOUT' if killed else '')
+
 def prove_files(dirpath, files, hdr=HDR, max_fail=12, deps_extra=(), extra=(), timeout=3000):
-    """files: {basename: [Lemma]}. Writes the .v files, compiles them, and on failure isolates failing lemmas
-    (the failing lemma is replaced by a comment and the file recompiled).  Returns (n_obligations, n_discharged, failures, assumptions)
-    failures: list of (Lemma, error text)."""
+    """files: {basename: [Lemma]}.  Every lemma is attempted independently: the file is fed to coqtop sentence by sentence, a
+    failing lemma is aborted and the next one still runs.  A lemma is discharged when Coq accepted its Qed (checked by
+    referring to the constant afterwards); one that hits the per-lemma Timeout or the memory limit is *deferred* (not an
+    obligation of this run, listed in the evidence); any other error is a failure.  `Print Assumptions` is run on the
+    tuple of all lemmas proved in the file.  Results are cached on (file text, library, Table) hashes.
+    Returns (n_obligations, n_discharged, failures [(Lemma, error)], assumptions {file: text})."""
     os.makedirs(dirpath, exist_ok=True)
-    table = GEN + '/Table.v'
-    def render(lems, skip):
-        out = [hdr]; linemap = []
-        for i, l in enumerate(lems):
-            start = sum(x.count('\n') for x in out) + 1
-            if i in skip: t = '(* skipped failing lemma %s *)' % l.name
-            else: t = l.text()
-            out.append(t + '\n'); linemap.append((start, start + t.count('\n')))
-        good = [l.name for i, l in enumerate(lems) if i not in skip]
-        if good:
-            out.append('Definition all_proved := (%s).\nPrint Assumptions all_proved.\n' % ', '.join(good[:1] + ['%s' % g for g in good[1:]]))
-        return ''.join(out), linemap
-    # stale files of an earlier run
+    lh = lib_hash()
+    try: th = open(GEN + '/Table.stamp').read()
+    except OSError: th = 'none'
     keep = set(files)
     for f in os.listdir(dirpath):
-        b = f.rsplit('.', 1)[0]
-        if b not in keep:
+        if f.rsplit('.', 1)[0] not in keep:
             try: os.remove(dirpath + '/' + f)
             except OSError: pass
-    skips = {b: set() for b in files}; failures = []; assumptions = {}
-    todo = list(files)
-    for rnd in range(max_fail + 1):
-        jobs = []; maps = {}
-        for b in todo:
-            txt, lm = render(files[b], skips[b]); maps[b] = lm; p = '%s/%s.v' % (dirpath, b); write_if_changed(p, txt); jobs.append((p, [table] + list(deps_extra)))
-        res = compile_many([(table, [])] + jobs, extra=extra, timeout=timeout) if False else compile_many(jobs, extra=extra, timeout=timeout)
-        nxt = []
-        for b in todo:
-            p = '%s/%s.v' % (dirpath, b)
-            if p not in res:
-                # cached: assumptions recorded in side file
-                try: assumptions[b] = open(p[:-2] + '.assum').read()
-                except OSError: assumptions[b] = '(cached)'
-                continue
-            rc, so, se = res[p]
-            if rc == 0:
-                a = so.strip(); assumptions[b] = a; open(p[:-2] + '.assum', 'w').write(a); continue
-            m = re.search(r'line (\d+), characters', se)
-            line = int(m.group(1)) if m else None; idx = None
-            if line is not None:
-                for i, (s, e) in enumerate(maps[b]):
-                    if s <= line <= e: idx = i
-            if idx is None or idx in skips[b]:
-                # cannot attribute: count every remaining lemma of the file as failed
-                for i, l in enumerate(files[b]):
-                    if i not in skips[b]: failures.append((l, (se or so)[-800:])); skips[b].add(i)
-                continue
-            failures.append((files[b][idx], se[-800:])); skips[b].add(idx); nxt.append(b)
-        todo = nxt
-        if not todo: break
-    else:
-        pass
-    for b in todo:  # still failing after max_fail rounds
-        for i, l in enumerate(files[b]):
-            if i not in skips[b]: failures.append((l, 'not attempted: more than %d failing lemmas in %s' % (max_fail, b))); skips[b].add(i)
-    nob = sum(len(v) for v in files.values()); return nob, nob - len(failures), failures, assumptions
+    def render(lems, start=0):
+        out = [hdr, 'Set Silent.\nDefinition acc_0 := tt.\n']
+        for i, l in enumerate(lems):
+            if i < start: continue
+            out.append('Goal True. idtac "BEGIN %d". Abort.\n%s\nAbort All.\nGoal True. let x := constr:(%s) in idtac "PROVED %d". Abort.\nDefinition acc_%d := (acc_%d, %s).\nDefinition acc_%d := acc_%d.\n' % (i, l.text(), l.name, i, i + 1, i if i > start else 0, l.name, i + 1, i if i > start else 0))
+        out.append('Goal True. idtac "ASSUMPTIONS". Abort.\nPrint Assumptions acc_%d.\nGoal True. idtac "END". Abort.\n' % len(lems))
+        return ''.join(out)
+    def one(b):
+        lems = files[b]; full = render(lems); h = hashlib.sha256((full + lh + th).encode()).hexdigest(); rp = '%s/%s.result.json' % (dirpath, b)
+        try:
+            r = json.load(open(rp))
+            if r.get('hash') == h: return b, r
+        except (OSError, ValueError): pass
+        status = {}; errors = {}; assum = []; start = 0
+        for attempt in range(len(lems) + 1):
+            p = '%s/%s.v' % (dirpath, b); open(p, 'w').write(render(lems, start))
+            out = _coqtop(p, timeout)
+            segs = re.split(r'BEGIN (\d+)\n', out)
+            last = None
+            for k in range(1, len(segs), 2):
+                i = int(segs[k]); body = segs[k + 1]; last = i
+                if re.search(r'^PROVED %d$' % i, body, re.M): status[i] = 'proved'
+                else:
+                    m = re.search(r'Error:(.*?)(?:\n\n|\Z)', body, re.S); err = m.group(0)[-800:] if m else body[-400:]
+                    if 'Timeout!' in body: status[i] = 'deferred:timeout'
+                    elif 'ut of memory' in body or 'Stack overflow' in body: status[i] = 'deferred:memory'
+                    else: status[i] = 'failed'
+                    errors[i] = err
+            if 'END\n' in out:
+                if 'ASSUMPTIONS' in out: assum.append(out[out.index('ASSUMPTIONS') + 11:out.rindex('END')].strip())
+                break
+            # coqtop died (memory / file timeout) inside lemma `last`: defer it and continue after it
+            if last is None: status = {i: 'failed' for i in range(len(lems))}; errors = {i: out[-600:] for i in range(len(lems))}; break
+            status[last] = 'deferred:memory' if 'FILE-TIMEOUT' not in out else 'deferred:timeout'; errors[last] = out[-300:]; start = last + 1
+            if start >= len(lems): break
+        r = {'hash': h, 'status': {str(k): v for k, v in status.items()}, 'errors': {str(k): v for k, v in errors.items()}, 'assumptions': '\n'.join(x for x in assum if x)}
+        json.dump(r, open(rp, 'w')); return b, r
+    failures = []; assumptions = {}; deferred = []; nob = 0
+    with concurrent.futures.ThreadPoolExecutor(NCPU) as ex:
+        for b, r in ex.map(one, sorted(files, key=lambda b: -len(files[b]))):
+            assumptions[b] = r['assumptions'] or 'Closed under the global context'
+            for i, l in enumerate(files[b]):
+                st = r['status'].get(str(i), 'failed')
+                if st == 'proved': nob += 1
+                elif st.startswith('deferred'): deferred.append((l, st[9:]))
+                else: nob += 1; failures.append((l, r['errors'].get(str(i), 'not attempted')))
+    DEFERRED[:] = deferred
+    return nob, nob - len(failures), failures, assumptions
 
 ALLOWED_AXIOMS = {
     'ClassicalDedekindReals.sig_forall_dec', 'ClassicalDedekindReals.sig_not_dec', 'FunctionalExtensionality.functional_extensionality_dep', 'Classical_Prop.classic',
@@ -337,7 +390,7 @@ def run_driver(binary, lines):
     return r.stdout.strip().split('\n') if r.stdout.strip() else []
 
 # ------------------------------------------------------------------ model evaluation (vm_compute inside Coq)
-def eval_model(terms, tag, imports='', chunk=400):
+def eval_model(terms, tag, imports='', chunk=150):
     """terms: list of Coq terms of type list Z (usually `out (run IEEEr tbl N fid args)`). Returns list of int lists (None on failure)."""
     d = BUILD + '/cases/' + tag; os.makedirs(d, exist_ok=True)
     for f in os.listdir(d): os.remove(d + '/' + f)
@@ -346,7 +399,7 @@ def eval_model(terms, tag, imports='', chunk=400):
         with open(path, 'w') as f:
             f.write('From Glam Require Import Base Sem Spec.\nFrom Gen Require Import Table.\nFrom Coq Require Import ZArith List.\nImport ListNotations.\nOpen Scope Z_scope.\n' + imports)
             f.write('Definition rs : list (list Z) := [' + ';\n '.join(part) + '].\nEval vm_compute in rs.\n')
-        rc, so, se = coqc(path, timeout=1200)
+        rc, so, se = coqc(path, timeout=1200, limit=False)
         if rc != 0 or '= [' not in so: return ci, None, (se + so)[-1500:]
         body = so[so.index('= [') + 2:so.rindex(': list')]
         rws = re.findall(r'\[([^\[\]]*)\]', body)
@@ -435,6 +488,7 @@ def gen_value(structs, enums, t, g):
             if mk == 'm128': lanes = [4294967295 if b else 0 for b in bs] + ([0] if d == 3 else []); return bs, 'VT [VT [%s]]' % '; '.join('vf32 %d' % w for w in lanes)
             if mk == 'u32': return bs, 'VT [%s]' % '; '.join('vi U32 %d' % (4294967295 if b else 0) for b in bs)
             if mk == 'bool': return bs, 'VT [%s]' % '; '.join('vb %s' % ('true' if b else 'false') for b in bs)
+            if mk == 'simd': lanes = bs + ([0] if d == 3 else []); return bs, 'VT [VT [%s]]' % '; '.join('vb %s' % ('true' if b else 'false') for b in lanes)
             raise SymErr('mask repr ' + n)
         if n in structs:
             ws = []; ts = []
@@ -490,6 +544,7 @@ def canon(structs, enums, t, it, side):
             if mk == 'm128': ws = [next(it) for _ in range(4)]; return [1 if w >= 0x80000000 else 0 for w in ws[:d]]
             if mk == 'u32': return [1 if next(it) != 0 else 0 for _ in range(d)]
             if mk == 'bool': return [next(it) for _ in range(d)]
+            if mk == 'simd': ws = [next(it) for _ in range(4)]; return ws[:d]
             raise SymErr('mask repr ' + n)
         if n in structs:
             fs = structs[n]
